@@ -3,6 +3,7 @@ package engines
 import (
 	"bytes"
 	"fmt"
+	"io"
 	"os"
 	"path/filepath"
 	"sort"
@@ -102,7 +103,7 @@ func cacheRunImpl(c corr.Case) []string {
 				return "case"
 			case "snapshot":
 				return "snap B{" + SnapLine(SnapshotMem(st.base)) + "} L{" + SnapLine(SnapshotMem(st.layer)) + "}"
-			case "readthrough":
+			case "readthrough", "readthroughof":
 				p := string(corr.UnHex(t[1]))
 				class, want, ok := st.predict(p)
 				bfiBefore, _ := st.base.Stat(p)
@@ -117,7 +118,17 @@ func cacheRunImpl(c corr.Case) []string {
 				if lfiBefore != nil {
 					lmBefore = lfiBefore.ModTime()
 				}
-				got, err := afero.ReadFile(st.fs, p)
+				var got []byte
+				var err error
+				if t[0] == "readthroughof" { // the same read through OpenFile(O_RDONLY), which has its own routing
+					var f afero.File
+					if f, err = st.fs.OpenFile(p, os.O_RDONLY, 0); err == nil {
+						got, err = io.ReadAll(f)
+						f.Close()
+					}
+				} else {
+					got, err = afero.ReadFile(st.fs, p)
+				}
 				if !ok {
 					if err == nil {
 						return "rd fail: a file absent from both layers was read"
@@ -208,7 +219,7 @@ func c10Oracle(c corr.Case, impl []string) (string, int) {
 		if impl[i] == "panic" {
 			return "call panics: " + t[0], i
 		}
-		if t[0] == "readthrough" && strings.HasPrefix(impl[i], "rd fail") {
+		if strings.HasPrefix(t[0], "readthrough") && strings.HasPrefix(impl[i], "rd fail") {
 			return impl[i], i
 		}
 	}
@@ -312,6 +323,21 @@ func c10Exhaustive(tier string) []corr.Case {
 			"open " + h("/d"), "h.readdirnames 1 -1", "stat " + h("/d"), "readthrough " + h("/d/g"), "open " + h("/d"), "h.readdirnames 2 -1", "h.readdirnames 2 -1", "snapshot"}
 		cases = append(cases, corr.Case{Lines: l})
 	}
+	// every case once more with the reads going through OpenFile(O_RDONLY) instead of Open
+	for _, c := range append([]corr.Case{}, cases...) {
+		var l []string
+		changed := false
+		for _, x := range c.Lines {
+			if strings.HasPrefix(x, "readthrough ") {
+				x = "readthroughof " + strings.TrimPrefix(x, "readthrough ")
+				changed = true
+			}
+			l = append(l, x)
+		}
+		if changed {
+			cases = append(cases, corr.Case{Lines: l})
+		}
+	}
 	return cases
 }
 
@@ -342,7 +368,7 @@ func c10Random(r *corr.Rand, tier string) []corr.Case {
 			case q < 45:
 				l = append(l, "b.remove "+h(p))
 			case q < 85:
-				l = append(l, "readthrough "+h(p))
+				l = append(l, corr.Pick(rr, []string{"readthrough ", "readthrough ", "readthroughof "})+h(p))
 			case q < 92:
 				l = append(l, "stat "+h(p))
 			default:
@@ -380,7 +406,7 @@ func cacheClassify(c corr.Case, impl []string, hist map[string]int) {
 		if t[0] == "case" {
 			hist["dur:"+t[2]]++
 		}
-		if t[0] == "readthrough" {
+		if strings.HasPrefix(t[0], "readthrough") {
 			hist[strings.Join(strings.Fields(impl[i])[:2], " ")+" "+strings.Fields(impl[i])[len(strings.Fields(impl[i]))-1]]++
 		}
 		res := cowStrip(impl[i])
